@@ -1027,6 +1027,9 @@ class _Rat:
         return f"({self.n})/({self.d})"
 
 
+_RAMP = {"repo": None, "fi": None, "env": []}
+
+
 def _ramp_eval(e, r, du, at, depth=0):
     """Evaluate an analytic phase expression to a rational function of N (= ns), K (bin index), PI, J, s, with ns // 2 = (N - r)/2."""
     N, K = Poly.sym("N"), Poly.sym("K")
@@ -1039,6 +1042,8 @@ def _ramp_eval(e, r, du, at, depth=0):
         if isinstance(e.value, (int, float)):
             return _Rat(Poly.const(e.value))
     if isinstance(e, ast.Name):
+        if _RAMP["env"] and e.id in _RAMP["env"][-1]:
+            return _RAMP["env"][-1][e.id]
         if e.id == "ns":
             return _Rat(N)
         if e.id == "s":
@@ -1089,6 +1094,19 @@ def _ramp_eval(e, r, du, at, depth=0):
             return a + (b - a) * _Rat(K) / (n - _Rat(Poly.const(1)))
         if nm == "rfftfreq" and e.args:
             return _Rat(K) / rec(e.args[0])
+        # a helper of the library (possibly memoised): its single returned expression with the arguments substituted
+        repo_, fi_ = _RAMP["repo"], _RAMP["fi"]
+        q = repo_.resolve_expr(fi_, e.func) if repo_ is not None else None
+        if q in getattr(repo_, "functions", {}) and not e.keywords and depth < 10:
+            h = repo_.functions[q]
+            rets = returns_of(h.node)
+            if len(rets) == 1 and rets[0].value is not None and len(h.params) == len(e.args):
+                frame = {p_: rec(a_) for p_, a_ in zip(h.params, e.args)}
+                _RAMP["env"].append(frame)
+                try:
+                    return _ramp_eval(rets[0].value, r, DefUse(h.node), rets[0], depth + 1)
+                finally:
+                    _RAMP["env"].pop()
     raise Undecided(f"cannot evaluate {src(e)[:60]}")
 
 
@@ -1122,6 +1140,7 @@ def _bin_vectors(exponent):
 def _analytic_ramp(ctx, repo, fi, du, exp_call):
     """The phase ramp is written analytically: bin k of an rfft of length ns must get phase -2*pi*k/ns, for both parities of ns."""
     verdicts = {}
+    _RAMP["repo"], _RAMP["fi"], _RAMP["env"] = repo, fi, []
     want = _Rat(Poly.sym("J") * Poly.const(-2) * Poly.sym("PI") * Poly.sym("K") * Poly.sym("s"), Poly.sym("N"))
     try:
         recs = phase_model(repo, fi)
@@ -1143,7 +1162,7 @@ def _analytic_ramp(ctx, repo, fi, du, exp_call):
     ctx.check(not bad, fi, exp_call, f"analytic phase: even ns -> {verdicts['even'][1]} ; odd ns -> {verdicts['odd'][1]}",
               "analytic ramp gives bin k the phase -2*pi*k/ns for even and odd lengths",
               f"analytic phase ramp is wrong for {' and '.join(bad)} lengths: bin k gets {verdicts[bad[0]][1] if bad else ''} (N = ns) instead of -2*pi*k*s/ns "
-              "(for odd ns the last rfft bin is not Nyquist): every shift on such an axis is scaled", key="phase")
+              "(for odd ns the last rfft bin is not Nyquist): every shift on such an axis is scaled", key="phase", name_free=True)
 
 
 def _argmax_offset(du, e, at, depth=6):
